@@ -3,6 +3,7 @@ package checks
 import (
 	"bytes"
 	"fmt"
+	"math/rand"
 	"os"
 	"path/filepath"
 	"regexp"
@@ -74,6 +75,38 @@ func c10Setup(c *mon.Ctx) error {
 	return nil // no lint has run yet in this process: baselines are computed AFTER the cold-start phase
 }
 
+// c10Parallel runs work items 0..n-1 on G goroutines released by ONE barrier and joined by ONE Wait, with no
+// monitor-side synchronisation in between: static partition (item k -> goroutine k mod G), results go to per-item
+// slots, counters are per goroutine. This matters for the race detector: it reports two accesses only when no
+// happens-before edge orders them, and every shared counter, work queue or watchdog tick the MONITOR touches between
+// two lint calls is such an edge (atomics and mutexes are release/acquire points). With a shared queue, calls that
+// did not overlap in real time were ordered by the monitor itself and their races hidden - and how much overlaps in
+// real time depends on machine load. Here all calls of different goroutines are unordered whatever the schedule.
+func c10Parallel(G, n int, work func(gi, k int)) {
+	start := make(chan struct{})
+	var wg sync.WaitGroup
+	for gi := 0; gi < G; gi++ {
+		wg.Add(1)
+		go func(gi int) {
+			defer wg.Done()
+			<-start
+			for k := gi; k < n; k += G {
+				work(gi, k)
+			}
+		}(gi)
+	}
+	close(start)
+	wg.Wait()
+}
+
+type c10Res struct {
+	ri    int
+	s     mon.Snap
+	pv    any
+	stack string
+	done  bool
+}
+
 var c10ColdOnce sync.Once
 
 // c10Cold is the first linting this process ever does: G goroutines lint every seed (each its own parse, in a
@@ -84,47 +117,37 @@ func c10Cold(c *mon.Ctx) {
 	G := []int{8, 32, 4, 64}[c.Shard%4]
 	runtime.GOMAXPROCS([]int{16, 16, 4, 8}[c.Shard%4])
 	order := c.Rng(-77, c.Shard).Perm(len(W.Objs))
-	type got struct {
-		ri int
-		s  mon.Snap
-	}
-	res := make([]got, len(W.Objs))
-	var next atomic.Int64
-	var wg sync.WaitGroup
+	res := make([]c10Res, len(W.Objs))
 	stopReaders := c10StartReaders(c, 3, 7000+c.Shard)
-	defer stopReaders()
-	for gi := 0; gi < G; gi++ {
-		wg.Add(1)
-		go func(gi int) {
-			defer wg.Done()
-			defer c10Recover(c, "cold")
-			for {
-				k := int(next.Add(1)) - 1
-				if k >= len(order) {
-					return
-				}
-				idx := order[k]
-				own := W.Objs[idx].Reparse()
-				if own == nil {
-					continue
-				}
-				ri := 0
-				if k%4 == 3 {
-					ri = 2 + k%(len(c10Regs)-2)
-				}
-				rs, pv, stack := own.Lint(c10Regs[ri].reg)
-				c.R.Count("evaluations", 1)
-				c.R.Count("cold_concurrent_lint_calls", 1)
-				if pv != nil || rs == nil {
-					c.V("panic-under-concurrency|cold", fmt.Sprintf("Lint*Ex panicked during the cold-start phase (%d goroutines): %v at %s", G, pv, mon.PanicSite(stack)), "", inputs(W.Objs[idx]), map[string]any{"stack": stack})
-					continue
-				}
-				res[idx] = got{ri, mon.SnapOf(rs)}
-				c.Tick()
-			}
-		}(gi)
+	c10Parallel(G, len(order), func(gi, k int) {
+		idx := order[k]
+		own := W.Objs[idx].Reparse()
+		if own == nil {
+			return
+		}
+		ri := 0
+		if k%4 == 3 {
+			ri = 2 + k%(len(c10Regs)-2)
+		}
+		rs, pv, stack := own.Lint(c10Regs[ri].reg)
+		r := c10Res{ri: ri, pv: pv, stack: stack, done: true}
+		if pv == nil && rs != nil {
+			r.s = mon.SnapOf(rs)
+		}
+		res[idx] = r
+	})
+	stopReaders()
+	for idx, r := range res {
+		if !r.done {
+			continue
+		}
+		c.R.Count("evaluations", 1)
+		c.R.Count("cold_concurrent_lint_calls", 1)
+		if r.pv != nil || r.s == nil {
+			c.V("panic-under-concurrency|cold", fmt.Sprintf("Lint*Ex panicked during the cold-start phase (%d goroutines): %v at %s", G, r.pv, mon.PanicSite(r.stack)), "", inputs(W.Objs[idx]), map[string]any{"stack": r.stack})
+		}
 	}
-	wg.Wait()
+	c.Tick()
 	// now the sequential baselines
 	day := today()
 	stride := c.Pick(5, 1)
@@ -164,46 +187,43 @@ func c10W1(c *mon.Ctx, G, procs int) {
 	defer runtime.GOMAXPROCS(old)
 	day := today()
 	stopReaders := c10StartReaders(c, 4, G*100+procs)
-	var wg sync.WaitGroup
-	var next atomic.Int64
-	total := int64(len(c10Objs) * 2)
-	for gi := 0; gi < G; gi++ {
-		wg.Add(1)
-		go func(gi int) {
-			defer wg.Done()
-			defer c10Recover(c, "linter")
-			for {
-				k := next.Add(1) - 1
-				if k >= total {
-					return
-				}
-				co := c10Objs[int(k)%len(c10Objs)]
-				ri := (int(k) + gi) % len(c10Regs)
-				base, ok := co.base[ri]
-				if !ok {
-					continue
-				}
-				own := co.o.Reparse() // every goroutine lints its own parsed object
-				if own == nil {
-					continue
-				}
-				rs, pv, stack := own.Lint(c10Regs[ri].reg)
-				c.R.Count("evaluations", 1)
-				c.R.Count("concurrent_lint_calls", 1)
-				if pv != nil || rs == nil {
-					c.V("panic-under-concurrency", fmt.Sprintf("Lint*Ex panicked while %d goroutines lint concurrently: %v at %s", G, pv, mon.PanicSite(stack)), "", inputs(co.o), map[string]any{"stack": stack})
-					continue
-				}
-				for _, d := range dropClock(day, mon.Diff(base, mon.SnapOf(rs), false, false)) {
-					name := strings.SplitN(d, ":", 2)[0]
-					c.V("concurrent-differs|"+name, fmt.Sprintf("lint %s: the concurrent call differs from the same call made alone (G=%d, GOMAXPROCS=%d, registry %s): %s", name, G, procs, c10Regs[ri].label, clipS(d, 240)), name, inputs(co.o), nil)
-				}
-				c.Tick()
-			}
-		}(gi)
-	}
-	wg.Wait()
+	total := len(c10Objs) * 2
+	res := make([]c10Res, total)
+	c10Parallel(G, total, func(gi, k int) {
+		co := c10Objs[k%len(c10Objs)]
+		ri := (k + gi) % len(c10Regs)
+		if _, ok := co.base[ri]; !ok {
+			return
+		}
+		own := co.o.Reparse() // every goroutine lints its own parsed object
+		if own == nil {
+			return
+		}
+		rs, pv, stack := own.Lint(c10Regs[ri].reg)
+		r := c10Res{ri: ri, pv: pv, stack: stack, done: true}
+		if pv == nil && rs != nil {
+			r.s = mon.SnapOf(rs)
+		}
+		res[k] = r
+	})
 	stopReaders()
+	for k, r := range res {
+		if !r.done {
+			continue
+		}
+		co := c10Objs[k%len(c10Objs)]
+		c.R.Count("evaluations", 1)
+		c.R.Count("concurrent_lint_calls", 1)
+		if r.pv != nil || r.s == nil {
+			c.V("panic-under-concurrency", fmt.Sprintf("Lint*Ex panicked while %d goroutines lint concurrently: %v at %s", G, r.pv, mon.PanicSite(r.stack)), "", inputs(co.o), map[string]any{"stack": r.stack})
+			continue
+		}
+		for _, d := range dropClock(day, mon.Diff(co.base[r.ri], r.s, false, false)) {
+			name := strings.SplitN(d, ":", 2)[0]
+			c.V("concurrent-differs|"+name, fmt.Sprintf("lint %s: the concurrent call differs from the same call made alone (G=%d, GOMAXPROCS=%d, registry %s): %s", name, G, procs, c10Regs[r.ri].label, clipS(d, 240)), name, inputs(co.o), nil)
+		}
+	}
+	c.Tick()
 	c.R.Distinct("w1_configs", fmt.Sprintf("G=%d,GOMAXPROCS=%d", G, procs))
 }
 
@@ -303,60 +323,64 @@ func c10W2(c *mon.Ctx, perLint int) {
 			c.R.Distinct("w2_no_applicable_object", li.Name)
 			continue
 		}
-		var inflight, maxInflight, overlapped atomic.Int64
-		start := make(chan struct{})
-		var wg sync.WaitGroup
 		per := perLint/G + 1
-		for gi := 0; gi < G; gi++ {
-			wg.Add(1)
-			go func(gi int) {
-				defer wg.Done()
-				defer c10Recover(c, "w2:"+li.Name)
-				own := objs[gi%len(objs)].o.Reparse()
-				if own == nil {
-					return
-				}
-				want := objs[gi%len(objs)].base[0][li.Name]
-				<-start
-				for k := 0; k < per; k++ {
-					n := inflight.Add(1)
-					if n > 1 {
-						overlapped.Add(1)
-					}
-					for {
-						m := maxInflight.Load()
-						if n <= m || maxInflight.CompareAndSwap(m, n) {
-							break
-						}
-					}
-					var r *lint.LintResult
-					switch li.Kind {
-					case corpus.Cert:
-						r = li.CertL.Execute(own.Cert, cfg)
-					case corpus.CRL:
-						r = li.CrlL.Execute(own.CRL, cfg)
-					default:
-						r = li.OcspL.Execute(own.OCSP, cfg)
-					}
-					inflight.Add(-1)
-					c.R.Count("evaluations", 1)
-					if r == nil || int(r.Status) != want.Status || r.Details != want.Details {
-						if !c05ClockLints[li.Name] {
-							c.V("self-overlap-differs|"+li.Name, fmt.Sprintf("lint %s executed concurrently with itself returns %v, alone it returned %s %q", li.Name, r, lint.LintStatus(want.Status), clipS(want.Details, 80)), li.Name, inputs(own), nil)
-						}
-					}
-				}
-			}(gi)
+		type slot struct {
+			runs  int
+			bad   *lint.LintResult
+			isBad bool
+			want  mon.SD
+			pv    any
 		}
-		close(start)
-		wg.Wait()
+		slots := make([]slot, G)
+		c10Parallel(G, G, func(gi, _ int) {
+			defer func() {
+				if r := recover(); r != nil {
+					slots[gi].pv = r
+				}
+			}()
+			own := objs[gi%len(objs)].o.Reparse()
+			if own == nil {
+				return
+			}
+			want := objs[gi%len(objs)].base[0][li.Name]
+			slots[gi].want = want
+			for k := 0; k < per; k++ {
+				var r *lint.LintResult
+				switch li.Kind {
+				case corpus.Cert:
+					r = li.CertL.Execute(own.Cert, cfg)
+				case corpus.CRL:
+					r = li.CrlL.Execute(own.CRL, cfg)
+				default:
+					r = li.OcspL.Execute(own.OCSP, cfg)
+				}
+				slots[gi].runs++
+				if (r == nil || int(r.Status) != want.Status || r.Details != want.Details) && !slots[gi].isBad {
+					slots[gi].bad, slots[gi].isBad = r, true
+				}
+			}
+		})
 		c.Tick()
-		if overlapped.Load() >= 10 {
-			c.R.Distinct("w2_lints_overlapped", li.Name)
-		} else {
-			c.R.Distinct("w2_lints_little_overlap", fmt.Sprintf("%s(%d)", li.Name, overlapped.Load()))
+		active := 0
+		for gi := range slots {
+			sl := slots[gi]
+			c.R.Count("evaluations", int64(sl.runs))
+			if sl.runs > 0 {
+				active++
+			}
+			if sl.pv != nil {
+				c.V("goroutine-panic|w2:"+li.Name, fmt.Sprintf("lint %s panicked when executed concurrently with itself: %v", li.Name, sl.pv), li.Name, nil, nil)
+			}
+			if sl.isBad && !c05ClockLints[li.Name] {
+				c.V("self-overlap-differs|"+li.Name, fmt.Sprintf("lint %s executed concurrently with itself returns %v, alone it returned %s %q", li.Name, sl.bad, lint.LintStatus(sl.want.Status), clipS(sl.want.Details, 80)), li.Name, nil, nil)
+			}
 		}
-		c.R.Count("w2_overlapped_executions", overlapped.Load())
+		if active >= 2 {
+			c.R.Distinct("w2_lints_overlapped", li.Name)
+			c.R.Count("w2_overlapped_executions", int64(active*per))
+		} else {
+			c.R.Distinct("w2_lints_little_overlap", fmt.Sprintf("%s(%d goroutines)", li.Name, active))
+		}
 	}
 }
 
@@ -364,45 +388,119 @@ func c10W2(c *mon.Ctx, perLint int) {
 func c10W3(c *mon.Ctx, rounds int) {
 	runtime.GOMAXPROCS(16)
 	g := lint.GlobalRegistry()
-	var wg sync.WaitGroup
 	stopReaders := c10StartReaders(c, 2, 9000)
-	defer stopReaders()
-	for gi := 0; gi < 16; gi++ {
-		wg.Add(1)
-		go func(gi int) {
-			defer wg.Done()
-			defer c10Recover(c, "w3")
-			rng := c.Rng(-300-gi, 0)
-			for k := 0; k < rounds; k++ {
-				o := randFilter(rng, false)
-				r, err := g.Filter(o)
-				if err != nil {
-					continue
-				}
-				co := c10Objs[rng.Intn(len(c10Objs))]
-				own := co.o.Reparse()
-				if own == nil {
-					continue
-				}
-				rs, pv, _ := own.Lint(r)
-				c.R.Count("evaluations", 1)
-				c.R.Count("w3_filter_and_lint", 1)
-				if pv != nil || rs == nil {
-					c.V("panic-under-concurrency|w3", fmt.Sprintf("lint on a freshly filtered registry panicked under concurrency: %v", pv), "", inputs(co.o), nil)
-					continue
-				}
-				got := mon.SnapOf(rs)
-				// the filtered registry has no configuration of its own: compare with the global baseline restricted
-				for n, sd := range got {
-					if b, ok := co.base[0][n]; ok && b != sd && !c05ClockLints[n] {
-						c.V("concurrent-differs|w3|"+n, fmt.Sprintf("lint %s on a concurrently filtered registry differs from the sequential baseline: %v vs %v", n, sd, b), n, inputs(co.o), nil)
-					}
-				}
-				c.Tick()
-			}
-		}(gi)
+	const G = 16
+	type w3res struct {
+		co  *c10Obj
+		got mon.Snap
+		pv  any
+		ok  bool
 	}
-	wg.Wait()
+	res := make([]w3res, G*rounds)
+	rngs := make([]*rand.Rand, G)
+	for gi := range rngs {
+		rngs[gi] = c.Rng(-300-gi, 0)
+	}
+	c10Parallel(G, G*rounds, func(gi, k int) {
+		rng := rngs[gi] // used by goroutine gi only
+		o := randFilter(rng, false)
+		r, err := g.Filter(o)
+		if err != nil {
+			return
+		}
+		co := c10Objs[rng.Intn(len(c10Objs))]
+		own := co.o.Reparse()
+		if own == nil {
+			return
+		}
+		rs, pv, _ := own.Lint(r)
+		x := w3res{co: co, pv: pv, ok: true}
+		if pv == nil && rs != nil {
+			x.got = mon.SnapOf(rs)
+		}
+		res[k] = x
+	})
+	stopReaders()
+	for _, x := range res {
+		if !x.ok {
+			continue
+		}
+		c.R.Count("evaluations", 1)
+		c.R.Count("w3_filter_and_lint", 1)
+		if x.pv != nil || x.got == nil {
+			c.V("panic-under-concurrency|w3", fmt.Sprintf("lint on a freshly filtered registry panicked under concurrency: %v", x.pv), "", inputs(x.co.o), nil)
+			continue
+		}
+		// the filtered registry has no configuration of its own: compare with the global baseline restricted
+		for n, sd := range x.got {
+			if b, ok := x.co.base[0][n]; ok && b != sd && !c05ClockLints[n] {
+				c.V("concurrent-differs|w3|"+n, fmt.Sprintf("lint %s on a concurrently filtered registry differs from the sequential baseline: %v vs %v", n, sd, b), n, inputs(x.co.o), nil)
+			}
+		}
+	}
+	c.Tick()
+}
+
+// w4: the directed families (general-name pool, AIA shapes, adversarial DNs, name constraints, DN texts, extension
+// shapes, a stride of the positional family) - code paths the corpus does not drive - are linted CONCURRENTLY FIRST
+// (16 goroutines, own parse each, so a lazily initialised table on such a path is first touched under contention)
+// and only then alone; the two must agree.
+func c10W4(c *mon.Ctx) {
+	runtime.GOMAXPROCS(16)
+	g := lint.GlobalRegistry()
+	n := directedCount(c)
+	tail := genPoolSize() + extShapeSize(c)
+	stride := c.Pick(29, 7)
+	phase := int(uint64(c.Seed) % uint64(stride))
+	var objs []*mon.Obj
+	for k := 0; k < n; k++ {
+		if k%stride != phase && k < n-tail {
+			continue
+		}
+		if o, _ := directedCase(c, k); o != nil {
+			objs = append(objs, o)
+		}
+	}
+	stopReaders := c10StartReaders(c, 2, 9000)
+	res := make([]mon.Snap, len(objs))
+	pvs := make([]any, len(objs))
+	c10Parallel(16, len(objs), func(gi, k int) {
+		own := objs[k].Reparse()
+		if own == nil {
+			return
+		}
+		rs, pv, stack := own.Lint(g)
+		if pv != nil || rs == nil {
+			pvs[k] = fmt.Sprintf("%v at %s", pv, mon.PanicSite(stack))
+			return
+		}
+		res[k] = mon.SnapOf(rs)
+	})
+	stopReaders()
+	for k := range objs {
+		c.R.Count("evaluations", 1)
+		if pvs[k] != nil {
+			c.V("panic-under-concurrency|w4", fmt.Sprintf("Lint*Ex panicked while directed-family objects are linted concurrently: %v", pvs[k]), "", inputs(objs[k]), nil)
+		}
+	}
+	c.Tick()
+	day := today()
+	for k, o := range objs {
+		if res[k] == nil {
+			continue
+		}
+		rs, pv, _ := o.Lint(g)
+		if pv != nil || rs == nil {
+			continue
+		}
+		c.R.Count("w4_objects", 1)
+		for _, d := range dropClock(day, mon.Diff(mon.SnapOf(rs), res[k], false, false)) {
+			name := strings.SplitN(d, ":", 2)[0]
+			c.V("concurrent-differs|w4|"+name, fmt.Sprintf("lint %s: the call made concurrently (directed-family object %s) differs from the same call made alone afterwards: %s", name, o.Name, clipS(d, 240)), name, inputs(o), nil)
+		}
+		c.Tick()
+	}
+	c.R.Sample(8, map[string]any{"workload": "W4 directed families, concurrent first", "objects": len(objs), "goroutines": 16})
 }
 
 var (
@@ -473,14 +571,14 @@ func init() {
 		ID:               "C10",
 		CrashIsViolation: true,
 		StallSecs:        300,
-		Procs:            func(c *mon.Ctx) int { return 4 },
+		Procs:            func(c *mon.Ctx) int { return c.Pick(5, 4) },
 		Rule:             "built with the Go race detector (GORACE=halt_on_error=0 log_path=...; reports counted and de-duplicated by the innermost zlint frame pair, exit code not trusted). W0 (cold start, in each of 4 worker processes, before any other linting): G in {8,32,4,64} goroutines lint every seed concurrently in a worker-specific order, so lazily initialised state is first touched concurrently; baselines are computed afterwards and compared. W1: G in {2,8,32,128} goroutines lint their own parse of each object against shared registries (global, nil, filtered+configured) while 4 reader goroutines hammer Names/Sources/ByName/BySource/Lints/Filter/WriteJSON/DefaultConfiguration, at GOMAXPROCS in {1,2,4,16}; every result is compared with the sequential baseline. W2: for every lint, 16 goroutines released by a barrier execute that same lint on their own certificates (per-lint overlap measured with in-flight counters; a lint counts as overlapped with >= 10 overlapping executions). W3: concurrent Filter + lint on the fresh registries. evaluations = concurrent lint executions; distinct_nontrivial = lints that were observed overlapping themselves.",
 		Assumptions:      []string{"the race detector sees only executed code", "SetConfiguration concurrent with linting is a write the property does not include and is not exercised"},
 		Setup:            c10Setup,
 		WorkerEnv: func(c *mon.Ctx, work string) []string {
 			return []string{"GORACE=halt_on_error=0 exitcode=0 log_path=" + filepath.Join(work, "race.log"), "GOMAXPROCS=8"}
 		},
-		Cases: func(c *mon.Ctx) int { return c.Pick(4, 20) },
+		Cases: func(c *mon.Ctx) int { return c.Pick(5, 21) },
 		RunCase: func(c *mon.Ctx, i int) {
 			c10ColdOnce.Do(func() { c10Canary(); c10Cold(c) })
 			type w1 struct{ g, p int }
@@ -499,6 +597,8 @@ func init() {
 				c.R.Sample(8, map[string]any{"workload": "W2 same-lint collision", "goroutines_per_lint": 16, "executions_per_lint": c.Pick(400, 5000), "overlapped_executions": c.R.Counters["w2_overlapped_executions"]})
 			case i == len(plan)+1:
 				c10W3(c, c.Pick(40, 600))
+			case i == len(plan)+2:
+				c10W4(c)
 			default: // thorough: repeat W2/W3 (race reports vary from run to run)
 				if i%2 == 0 {
 					c10W2(c, 2000)
@@ -539,6 +639,10 @@ func init() {
 			}
 			if r.SetSize("w2_lints_overlapped") < len(Inv)*8/10 {
 				gates = append(gates, fmt.Sprintf("only %d of %d lints overlapped themselves", r.SetSize("w2_lints_overlapped"), len(Inv)))
+			}
+			ev.Coverage["w4_directed_objects_linted_concurrently_first"] = r.Counters["w4_objects"]
+			if r.Counters["w4_objects"] < 1000 {
+				gates = append(gates, "W4 (directed families, concurrent first) observed too little")
 			}
 			if r.Counters["w3_filter_and_lint"] < 100 {
 				gates = append(gates, "W3 observed too little")
